@@ -190,7 +190,7 @@ def execute(case):
                     V(cls, f"{name[0]}-vs-{ref_name}/{','.join(difftags)[:40] or 'records'}", only_serial_ids=ids_a[:6], only_parallel_ids=ids_b[:6],
                       n_only_serial=sum(a.values()), n_only_parallel=sum(b.values()), differing_tags=difftags, **ctx)
             # ownership: each molecule written by exactly one job (observed from the per-job temp files before the merge)
-            if mode.get('mp'):
+            if mode.get('mp') and jobs:
                 owner = collections.defaultdict(set)
                 for ji, j in enumerate(jobs):
                     for (qname, mate, ds, refname, ix) in j['records']:
